@@ -1512,7 +1512,7 @@ impl FdlActiveStation {
         // that the activity marker might change again later during the poll cycle.
         self.check_for_bus_activity(now, phy);
 
-        match &self.state {
+        let result = match &self.state {
             State::Offline { .. } => unreachable!(),
             State::ListenToken { .. } => self.do_listen_token(now, phy).into(),
             State::ClaimToken { .. } => self.do_claim_token(now, phy).into(),
@@ -1523,7 +1523,17 @@ impl FdlActiveStation {
             State::ActiveIdle { .. } => self.do_active_idle(now, phy).into(),
             State::AwaitStatusResponse { .. } => self.do_await_status_response(now, phy).into(),
             s => todo!("Active station state {s:?} not implemented yet!"),
+        };
+
+        // Bytes which did not form a telegram were dropped by the PHY.  Forget about them so the
+        // next received byte is seen as bus activity again.
+        if !phy.poll_transmission(now) {
+            self.pending_bytes = self
+                .pending_bytes
+                .min(phy.poll_pending_received_bytes(now));
         }
+
+        result
     }
 }
 
